@@ -458,6 +458,7 @@ int pthread_mutex_destroy(pthread_mutex_t *m) {
   }
   return r_mutex_destroy(m);
 }
+static int interleave_reported;
 int pthread_mutex_lock(pthread_mutex_t *m) {
   sobj *o;
   if (!MANAGED()) { resolve(); return r_mutex_lock(m); }
@@ -472,6 +473,21 @@ int pthread_mutex_lock(pthread_mutex_t *m) {
   if (o->owner == self && o->recursive) o->depth++;
   else { o->owner = self; o->depth = 1; }
   ev(E_LOCK, o, 0, NULL);
+  /* a write to client c (rfbWriteExact takes outputMutex) while ANOTHER thread is inside a send to c
+     (holds sendMutex of c): the two messages interleave on the wire */
+  if (o->cls == 'O' && o->cid >= 0 && !interleave_reported && (self->role == 'I' || self->role == 'O' || self->role == 'A')) {
+    int i;
+    for (i = 0; i < nobj; i++) if (objs[i].kind == 0 && objs[i].live && objs[i].cls == 'S' && objs[i].cid == o->cid &&
+                                   objs[i].owner && objs[i].owner != self) {
+      clrec *cr = (o->cid < nclients) ? &clients[o->cid] : NULL;
+      if (cr && cr->live && cr->cl->state == RFB_NORMAL) {
+        char a[32], b[32]; tname(self->idx, a); tname(objs[i].owner->idx, b);
+        interleave_reported = 1; dump_trace();
+        printf("res misuse write-inside-foreign-send client=%d writer=%s sender=%s\n", o->cid, a, b);
+      }
+      break;
+    }
+  }
   return 0;
 }
 int pthread_mutex_trylock(pthread_mutex_t *m) {
@@ -1014,7 +1030,8 @@ static enum rfbNewClientAction new_client_hook(rfbClientPtr cl) {
   }
   classify_all();
   ev(E_NEWCL, NULL, c->cid, NULL);
-  return RFB_CLIENT_ACCEPT;
+  /* cfg sharing bit 16: the application puts every new client on hold and never starts it */
+  return (sharing & 16) ? RFB_CLIENT_ON_HOLD : RFB_CLIENT_ACCEPT;
 }
 
 /* ------------------------------------------------------------------------------------------ */
@@ -1037,7 +1054,7 @@ static void start_peer(peer *p) {
     in_newclient = 0;
     if (cl) {
       if (nclients > before) { clients[nclients - 1].p = p; p->cid = clients[nclients - 1].cid; }
-      rfbStartOnHoldClient(cl);
+      if (!(sharing & 16)) rfbStartOnHoldClient(cl);
     }
     ev(E_RET, NULL, 0, "newclient");
   } else {
